@@ -24,6 +24,16 @@ import (
 
 var mac = net.HardwareAddr{0x02, 0x00, 0x5e, 0x10, 0x00, 0x01}
 
+// the hardware addresses a client may have: Ethernet, EUI-64, the longest chaddr can hold, a one-octet address
+var hwAddrs = []net.HardwareAddr{
+	mac,
+	{0x02, 0x00, 0x5e, 0xff, 0xfe, 0x10, 0x00, 0x01},
+	{0x80, 0, 0, 0, 0xfe, 0x80, 0, 0, 0, 0, 0, 0, 0x02, 0x11, 0x22, 0x33},
+	{0x2a},
+}
+
+func macOf(sc scenario) net.HardwareAddr { return hwAddrs[sc.HW%len(hwAddrs)] }
+
 const T = 100 * time.Millisecond
 
 type reaction struct {
@@ -44,6 +54,7 @@ type scenario struct {
 	Servers []server `json:"servers"`
 	Bcast   bool     `json:"broadcast_flag"`
 	Cfg     int      `json:"cfg"` // client logging configuration (cli.LogOpts4)
+	HW      int      `json:"hw,omitempty"` // which hardware address the client has (hwAddrs): 6, 8 (EUI-64), 16 octets, 1 octet
 	Unicast bool     `json:"unicast_server_addr"` // the client is configured with WithServerAddr(<unicast>): it changes where the client sends, nothing else
 }
 
@@ -57,6 +68,9 @@ var reqKinds = []string{"notype", "badtype", "inform", "ack", "ack", "nak", "ack
 
 func genScenario(rng *rand.Rand, maxServers, maxReact int) scenario {
 	sc := scenario{Bcast: rng.IntN(2) == 0, Cfg: rng.IntN(cli.NCfg), Unicast: rng.IntN(3) == 0}
+	if rng.IntN(3) == 0 {
+		sc.HW = 1 + rng.IntN(3)
+	}
 	ns := rng.IntN(maxServers + 1)
 	for s := 0; s < ns; s++ {
 		sv := server{ID: [4]byte{10, 0, byte(s + 1), 1}, Addr: [4]byte{192, 168, byte(s + 1), byte(10 + rng.IntN(200))}}
@@ -101,6 +115,7 @@ type txrec struct {
 }
 
 type world struct {
+	mac  net.HardwareAddr
 	mu   sync.Mutex
 	inj  map[int]*injected
 	tx   []txrec
@@ -132,7 +147,7 @@ func (w *world) datagram(sv *server, si int, kind string, req *ref4.P4) (*inject
 	n := w.next
 	w.mu.Unlock()
 	in := &injected{nonce: n, kind: kind, server: si, class: "valid"}
-	p := &dhcpv4.DHCPv4{OpCode: dhcpv4.OpcodeBootReply, HWType: 1, ClientHWAddr: append(net.HardwareAddr{}, mac...), Options: dhcpv4.Options{}}
+	p := &dhcpv4.DHCPv4{OpCode: dhcpv4.OpcodeBootReply, HWType: 1, ClientHWAddr: append(net.HardwareAddr{}, w.mac...), Options: dhcpv4.Options{}}
 	copy(p.TransactionID[:], req.Xid[:])
 	p.YourIPAddr = net.IP(sv.Addr[:])
 	sid := sv.ID[:]
@@ -143,7 +158,7 @@ func (w *world) datagram(sv *server, si int, kind string, req *ref4.P4) (*inject
 		p.TransactionID[0] ^= 0x80
 		in.class = "dropped"
 	case "offer-wronghw":
-		p.ClientHWAddr[5] ^= 1
+		p.ClientHWAddr[len(p.ClientHWAddr)-1] ^= 1
 		in.class = "dropped"
 	case "offer-emptyhw":
 		p.ClientHWAddr = nil
@@ -276,7 +291,7 @@ type outcome struct {
 }
 
 func run(t *testing.T, sc scenario) (o outcome) {
-	w := &world{inj: map[int]*injected{}}
+	w := &world{inj: map[int]*injected{}, mac: macOf(sc)}
 	synctest.Test(t, func(t *testing.T) {
 		conn := sconn.New(0)
 		txCh := make(chan txrec, 64)
@@ -332,7 +347,16 @@ func run(t *testing.T, sc scenario) (o outcome) {
 									return
 								}
 								in, b := w.datagram(sv, si, re.Kind, rec.p)
-								ok := conn.Inject(sconn.Datagram{B: b, Nonce: in.nonce, Class: in.class, From: &net.UDPAddr{IP: net.IP(sv.ID[:]), Port: 67}})
+								// where a reply comes from is not part of the exchange rules: the server's address and port 67,
+								// another port (a server behind a translator, PXE's 4011), a relay's address
+								from := &net.UDPAddr{IP: net.IP(sv.ID[:]), Port: 67}
+								switch in.nonce % 5 {
+								case 2:
+									from.Port = []int{4011, 68, 1067, 65535}[in.nonce%4]
+								case 4:
+									from.IP = net.IP{10, 201, byte(si + 1), 1}
+								}
+								ok := conn.Inject(sconn.Datagram{B: b, Nonce: in.nonce, Class: in.class, From: from})
 								w.mu.Lock()
 								in.taken = ok
 								w.mu.Unlock()
@@ -347,7 +371,7 @@ func run(t *testing.T, sc scenario) (o outcome) {
 		if sc.Unicast {
 			copts = append(copts, nclient4.WithServerAddr(&net.UDPAddr{IP: net.IP{10, 0, 1, 1}, Port: 67}))
 		}
-		c, err := nclient4.NewWithConn(conn, mac, copts...)
+		c, err := nclient4.NewWithConn(conn, w.mac, copts...)
 		restore()
 		if err != nil {
 			t.Fatal(err)
@@ -428,8 +452,8 @@ func judge(r *mon.Rec, t *testing.T, sc scenario) {
 			bad("undecodable-transmission", "the client transmitted bytes an independent decoder rejects")
 			return
 		}
-		if string(x.p.CHAddr) != string(mac) || x.p.Op != 1 {
-			bad("tx-chaddr", "client transmission type %d carries chaddr %x op %d (client MAC %x)", typeOf(x.p), x.p.CHAddr, x.p.Op, []byte(mac))
+		if string(x.p.CHAddr) != string(macOf(sc)) || x.p.Op != 1 {
+			bad("tx-chaddr", "client transmission type %d carries chaddr %x op %d (client's hardware address %x)", typeOf(x.p), x.p.CHAddr, x.p.Op, []byte(macOf(sc)))
 			return
 		}
 		switch {
